@@ -15,6 +15,16 @@ def tempo_params(dt, epsrel, kmax=None, tau=None, subdiv_limit=256):
     return oqupy.TempoParameters(**kw)
 
 
+def pt_growth(nsteps):
+    """Amplification of the PT-TEMPO truncation error with the number of
+    steps. Calibrated on the unchanged tree (weak-coupling commuting model vs
+    closed form, epsrel 1e-7..1e-10): err/(epsrel*scale) <= 1, 4.5, 7, 30, 161
+    for N = 3, 5, 7, 9, 11 (TEMPO itself stays <= 2 for all N): the relative
+    SVD cut-off refers to the norm of the process tensor, not to the physical
+    state. (N/5)^6 follows that growth; the constant c=100 stays on top."""
+    return max(1.0, nsteps / 5.0) ** 6
+
+
 def end_time(start, dt, nsteps):
     """An end time safely inside step N (insensitive to grid rounding)."""
     return start + (nsteps + 0.4) * dt
